@@ -119,8 +119,11 @@ Proof.
   apply sort_o_sorted.
 Qed.
 
-(* ---------- repaired variant: the marker stored with a row describes that row ---------- *)
+(* ---------- F-C25e and F-C25f repaired: the marker stored with a row describes that row ---------- *)
 Section Repr.
+  Variable fx : fixes.
+  Hypothesis Htags : f_tags fx = true.
+  Hypothesis Hskey : f_skey fx = true.
   Variable lods : list lod.
   Variable by_ : list Z.
   Variable by_s : bool.
@@ -131,30 +134,31 @@ Section Repr.
   Let good (o : orow) : Prop := o_repr o = repr_of by_ by_s (o_row o).
 
   Lemma upsert_good : forall pre sel cur c st rl, Forall good st ->
-    Forall good (upsert desired pre sel (chunk_tags true by_ c (fst rl)) (next_skey true by_s cur (fst rl)) st rl).
+    Forall good (upsert desired pre sel (chunk_tags fx by_ c (fst rl)) (next_skey fx by_s cur (fst rl)) st rl).
   Proof.
     induction st as [|o st IH]; intros rl H; simpl.
-    - constructor; [|constructor]. unfold good, repr_of; simpl. reflexivity.
+    - constructor; [|constructor]. unfold good, repr_of, chunk_tags, next_skey, repr_skey; simpl.
+      rewrite Htags, Hskey. reflexivity.
     - inversion H as [|? ? Ho Hst]; subst. destruct (key_eqb _ _).
       + constructor; [|exact Hst]. unfold good in *; simpl. exact Ho.
       + constructor; [exact Ho | apply IH; exact Hst].
   Qed.
 
   Lemma chunk_fold_good : forall pre sel c0 c acc, Forall good (fst acc) ->
-    Forall good (fst (fold_left (chunk_step true by_ by_s desired pre sel c0) c acc)).
+    Forall good (fst (fold_left (chunk_step fx by_ by_s desired pre sel c0) c acc)).
   Proof.
     induction c as [|rl c IH]; intros acc H; simpl; auto.
     apply IH. unfold chunk_step; simpl. apply (upsert_good pre sel (snd acc) c0 (fst acc) rl H).
   Qed.
 
   Lemma chunks_good : forall pre sel chunks st, Forall good st ->
-    Forall good (fold_left (do_chunk true by_ by_s desired pre sel) chunks st).
+    Forall good (fold_left (do_chunk fx by_ by_s desired pre sel) chunks st).
   Proof.
     induction chunks as [|c cs IH]; intros st H; simpl; auto.
     apply IH. unfold do_chunk. apply chunk_fold_good; exact H.
   Qed.
 
-  Lemma pad_good : forall sel prs st, Forall good st -> Forall good (pad_unused true sel prs st).
+  Lemma pad_good : forall sel prs st, Forall good st -> Forall good (pad_unused fx sel prs st).
   Proof.
     intros sel prs st H; unfold pad_unused. rewrite Forall_forall in *. intros o Ho.
     apply in_map_iff in Ho. destruct Ho as [o' [E Ho']]. specialize (H o' Ho').
@@ -162,21 +166,21 @@ Section Repr.
   Qed.
 
   Lemma fold_pass_good : forall hws a, Forall good (st_of a) ->
-    Forall good (st_of (fold_left (do_pass true lods by_ by_s from to fe num desired store) hws a)).
+    Forall good (st_of (fold_left (do_pass fx lods by_ by_s from to fe num desired store) hws a)).
   Proof.
     induction hws as [|hw hws IH]; intros [[[st hm] qi] cols] H; [exact H | rewrite fl_cons].
-    apply IH. unfold do_pass. destruct (pass_rows true lods from to fe num store qi) as [chunks hmp].
+    apply IH. unfold do_pass. destruct (pass_rows fx lods from to fe num store qi) as [chunks hmp].
     simpl. apply pad_good, chunks_good; exact H.
   Qed.
 
   Theorem marker_describes_row_fixed : forall whats o,
-    In o (table_rows true whats lods by_ by_s from to fe num desired store) ->
+    In o (table_rows fx whats lods by_ by_s from to fe num desired store) ->
     o_repr o = repr_of by_ by_s (o_row o).
   Proof.
     intros whats o Hin. unfold table_rows in Hin.
     pose proof (fold_pass_good (handler_whats whats) ([], false, O, O) (Forall_nil _)) as H.
-    fold (assemble true whats lods by_ by_s from to fe num desired store) in H.
-    destruct (assemble true whats lods by_ by_s from to fe num desired store) as [[[st hm] qi] cols].
+    fold (assemble fx whats lods by_ by_s from to fe num desired store) in H.
+    destruct (assemble fx whats lods by_ by_s from to fe num desired store) as [[[st hm] qi] cols].
     simpl in H. apply (Permutation.Permutation_in _ (sort_o_perm fe st)) in Hin.
     rewrite Forall_forall in H. apply H; exact Hin.
   Qed.
